@@ -452,6 +452,55 @@ func runC11(c *Ctx) {
 		o := safeEval(func() (system.Collection, error) { return e.Evaluate(input, envVar("v", shared)) })
 		return canonOutcome(o, nil), true
 	}
+	// bare dotted paths — also with a resource type name in a later position — against the same path written with
+	// parentheses, blanks, comments: a shortcut taken for "simple" sources must not read them differently
+	{
+		bundle := mustResource(`{"resourceType":"Bundle","type":"collection","entry":[{"resource":{"resourceType":"Patient","id":"q","name":[{"family":"Jones"}]}},{"resource":{"resourceType":"Observation","id":"o","status":"final","code":{"text":"x"}}}]}`)
+		for _, in := range [][]fhir.Resource{input, {bundle}} {
+			for _, p := range []string{"name.Patient", "entry.resource.Patient", "entry.resource.Patient.name.family", "entry.resource.Observation.id", "name.given.Patient", "Patient.name.Patient", "Patient.name.given", "name.family", "entry.resource", "Bundle.entry.resource.Patient", "id.Patient", "active.Patient.name"} {
+				segs := strings.Split(p, ".")
+				variants := []string{"(" + p + ")", strings.Join(segs, " . "), p + " ", " " + p, p + " // c", "/* c */" + p, strings.Join(segs, "\n."), "(" + strings.Join(segs[:len(segs)-1], ".") + ")." + segs[len(segs)-1], segs[0] + "." + strings.Join(segs[1:], " ."), "`" + segs[0] + "`." + strings.Join(segs[1:], ".")}
+				outOf := func(src string) string {
+					e, err := fhirpath.Compile(src)
+					if err != nil {
+						return "compile-err"
+					}
+					return canonOutcome(safeEval(func() (system.Collection, error) { return e.Evaluate(in) }), NewIDTable())
+				}
+				base := outOf(p)
+				for _, v := range variants {
+					v = strings.ReplaceAll(v, "\\n", "\n")
+					got := outOf(v)
+					c.Observe("bare path "+v, true)
+					c.Law(got == base, "C11/same-outcome", "all renderings of a tree compile alike and evaluate identically", fmt.Sprintf("%q vs %q", p, v), base+" vs "+got)
+				}
+			}
+		}
+	}
+	// what a source means does not depend on what was compiled before it: sources that differ only in the white space
+	// INSIDE a string literal, or in where a line comment ends, are different programs
+	{
+		seq := []struct{ src, want string }{
+			{"'Dr. Smith'.length()", "ok:[I:9]"}, {"'Dr.  Smith'.length()", "ok:[I:10]"}, {"'Dr.\tSmith'.length()", "ok:[I:9]"}, {"'Dr. Smith' = 'Dr.  Smith'", "ok:[B:false]"},
+			{"73001 // c + 2", "ok:[I:73001]"}, {"73001 // c\n+ 2", "ok:[I:73003]"}, {"73001 // c\n + 2", "ok:[I:73003]"}, {"73001 /* c */ + 2", "ok:[I:73003]"}, {"73001 // c /* + 2", "ok:[I:73001]"},
+			{"'a b'.length()", "ok:[I:3]"}, {"'a  b'.length()", "ok:[I:4]"}, {"'a\nb'.length()", "ok:[I:3]"}, {"'a \n b'.length()", "ok:[I:5]"},
+		}
+		for round := 0; round < 2; round++ {
+			order := make([]int, len(seq))
+			for i := range order {
+				order[i] = i
+				if round == 1 {
+					order[i] = len(seq) - 1 - i
+				}
+			}
+			for _, i := range order {
+				src := strings.ReplaceAll(strings.ReplaceAll(seq[i].src, "\\n", "\n"), "\\t", "\t")
+				got, _ := evalSrc(src)
+				c.Observe("history "+src, true)
+				c.Law(got == seq[i].want, "C11/history-dependent", "a source compiles to what its own tokens say, whatever was compiled before", fmt.Sprintf("%q", src), got+" want "+seq[i].want)
+			}
+		}
+	}
 	for _, src := range c11Suffix {
 		for _, s := range []string{src, strings.ReplaceAll(src, " ", " /* c */ ")} {
 			c.Emit("syn "+hexs(s), synDump(s), true)
